@@ -1602,7 +1602,11 @@ func SelectStrategy(n *nfa.NFA, re *syntax.Regexp, literals *literal.Seq, config
 	// Uses sequential lookup tables for 5-6x speedup over BoundedBacktracker.
 	// Must come AFTER CharClassSearcher (single char class) but BEFORE BoundedBacktracker.
 	// Reference: https://github.com/coregx/coregex/issues/72
-	if !litAnalysis.hasGoodLiterals && !litAnalysis.hasTeddyLiterals && nfa.IsCompositeCharClassPattern(re) {
+	// Only when the linear-time CompositeSequenceDFA can be built: the recursive
+	// CompositeSearcher backtracker has no memoization and is cubic or worse on
+	// e.g. `[a-z]+[a-z]+[0-9]` vs "aaaa...", so the remaining composite patterns
+	// go to the (memoizing) BoundedBacktracker / general engines below.
+	if !litAnalysis.hasGoodLiterals && !litAnalysis.hasTeddyLiterals && nfa.IsCompositeSequenceDFAPattern(re) {
 		return UseCompositeSearcher
 	}
 
